@@ -23,7 +23,7 @@ package render
 
 import (
 	"fmt"
-	"math"
+	"strconv"
 	"sync"
 
 	"github.com/deadsy/sdfx/sdf"
@@ -61,13 +61,15 @@ func write3MF(wg *sync.WaitGroup, path string) (chan<- []*sdf.Triangle3, error) 
 	model.Resources.Objects = append(model.Resources.Objects, obj)
 	model.Build.Items = append(model.Build.Items, &go3mf.Item{ObjectID: obj.ID})
 
-	// De-dup the vertices: vertices in the same 1e-6 cell share an index.
-	// (The go3mf mesh builder does the same with int32 cell coordinates,
-	// which overflow beyond +/-2147 and then merge unrelated vertices.)
-	index := make(map[[3]float64]uint32)
+	// De-dup the vertices: vertices that are written identically share an index.
+	// (The go3mf mesh builder merges vertices in the same 1e-6 cell. Its int32
+	// cell coordinates overflow beyond +/-2147 and then merge unrelated vertices,
+	// and two vertices in one cell can still differ in the 4 decimals that get
+	// written.)
+	index := make(map[[3]string]uint32)
+	written := func(x float32) string { return strconv.FormatFloat(float64(x), 'f', 4, 32) }
 	addVertex := func(p go3mf.Point3D) uint32 {
-		const cell = 1e-6
-		k := [3]float64{math.Floor(float64(p.X()) / cell), math.Floor(float64(p.Y()) / cell), math.Floor(float64(p.Z()) / cell)}
+		k := [3]string{written(p.X()), written(p.Y()), written(p.Z())}
 		if i, ok := index[k]; ok {
 			return i
 		}
